@@ -442,6 +442,45 @@ fn check_g1_pair(c: &G1Pair) -> CaseResult {
     pass(class != "generic" || !same_z, class)
 }
 
+/// A boundary point of G1 (see sm9util::g1_edge_points) in the representation Z = lambda, with a scalar.
+#[derive(Serialize, Deserialize, Hash, Debug, Clone)]
+pub struct G1Edge {
+    pub point: usize,
+    pub lambda: Hex,
+    pub scalar: Hex,
+}
+
+fn check_g1_edge(c: &G1Edge) -> CaseResult {
+    let pr = r9::params();
+    let eps = g1_edge_points();
+    let (label, x, y) = &eps[c.point % eps.len()];
+    let p_ref: Pt<Fp> = Some((r9::fp(x), r9::fp(y)));
+    let mut l = from_be(&c.lambda) % pr.p;
+    if l.is_zero() {
+        l = BigUint::one();
+    }
+    let p_lib = lib_g1(&p_ref, &l);
+    let desc = format!("P = edge point {} x={:x} y={:x} (Z={:x})", label, x, y, l);
+    ensure!(catch(|| p_lib.is_on_curve()).map_err(|e| Fail { key: "entry=Point::is_on_curve outcome=panic".into(), detail: e })?, "entry=Point::is_on_curve outcome=false-on-curve-point", "{}", desc);
+    let d = catch(|| p_lib.point_double()).map_err(|e| Fail { key: "entry=Point::point_double outcome=panic".into(), detail: e })?;
+    check_g1("Point::point_double", &d, &pr.g1.dbl(&p_ref), &desc)?;
+    let g = r9::p1_mul(&BigUint::one());
+    for (what, q_ref, q_lib) in [("P+P1", g.clone(), lib_g1(&g, &BigUint::one())), ("P+P", p_ref.clone(), lib_g1(&p_ref, &BigUint::from(2u32))), ("P+(-P)", pr.g1.neg(&p_ref), lib_g1(&pr.g1.neg(&p_ref), &BigUint::one()))] {
+        let got = catch(|| p_lib.point_add(&q_lib)).map_err(|e| Fail { key: "entry=Point::point_add outcome=panic".into(), detail: format!("{} {}: {}", what, desc, e) })?;
+        check_g1("Point::point_add", &got, &pr.g1.add(&p_ref, &q_ref), &format!("{} {}", what, desc))?;
+        let got = catch(|| q_lib.point_add(&p_lib)).map_err(|e| Fail { key: "entry=Point::point_add outcome=panic".into(), detail: format!("{} {}: {}", what, desc, e) })?;
+        check_g1("Point::point_add", &got, &pr.g1.add(&p_ref, &q_ref), &format!("(swapped) {} {}", what, desc))?;
+    }
+    let k = from_be(&c.scalar);
+    let got = catch(|| p_lib.point_mul(&scalar_limbs(&k))).map_err(|e| Fail { key: "entry=Point::point_mul input=k outcome=panic".into(), detail: format!("k={:x} {}: {}", k, desc, e) })?;
+    check_g1("Point::point_mul", &got, &pr.g1.mul(&(&k % &pr.n), &p_ref), &format!("k={:x} {}", k, desc))?;
+    let bytes = catch(|| p_lib.to_bytes_be()).map_err(|e| Fail { key: "entry=Point::to_bytes_be outcome=panic".into(), detail: e })?;
+    let mut want = vec![4u8];
+    want.extend_from_slice(&r9::g1_bytes(&p_ref).unwrap());
+    ensure!(bytes == want, "entry=Point::to_bytes_be outcome=wrong-encoding", "{} -> {}", desc, hex::encode(&bytes));
+    pass(true, format!("g1-edge/{}", if l.is_one() { "affine" } else { "jacobian" }))
+}
+
 #[derive(Serialize, Deserialize, Hash, Debug, Clone)]
 pub struct G1Mul {
     /// None: fixed-base g_mul; Some: variable-base point_mul on that point
@@ -742,6 +781,16 @@ pub fn run(ctx: &Ctx) {
         }
         v
     }, check_g1_mul);
+    ctx.listed("g1_edge_points", "boundary points of G1 (x next to 0, N, p, 2^256-p, powers of two; Montgomery x with all-ones / zero limbs; y with a leading zero byte) in affine and two Jacobian representations: double, add (P1, itself, its negative; both orders), point_mul, encode", || {
+        let mut v = Vec::new();
+        for point in 0..g1_edge_points().len() {
+            for (j, lambda) in [BigUint::one(), BigUint::from(2u32), from_be(&expand_bytes(point as u64 ^ 0xed13, 32))].iter().enumerate() {
+                v.push(G1Edge { point, lambda: gen::hex32(lambda), scalar: Hex(expand_bytes((point * 3 + j) as u64 ^ 0xed14, 32)) });
+            }
+        }
+        v
+    }, check_g1_edge);
+
     ctx.exhaustive("g1_scalars_around_n", "g_mul and point_mul for N-4..=N+8, 0, 1, 2, 2^255, 2^256-1", || {
         let n = &pr.n;
         let mut ks: Vec<BigUint> = (0..=12u32).map(|i| n - 4u32 + i).collect();
